@@ -123,14 +123,14 @@ func setupMaterial(t *vk.T) *material {
 			break
 		}
 		st, err := os.Stat(f)
-		if err != nil || st.Size() < 2000 || st.Size() > 120_000 {
+		if err != nil || st.Size() < 2000 || st.Size() > 80_000 {
 			continue
 		}
 		b, err := os.ReadFile(f)
 		if err != nil {
 			continue
 		}
-		if n, err := api.PageCount(bytes.NewReader(b), newConf()); err != nil || n < 2 {
+		if n, err := api.PageCount(bytes.NewReader(b), newConf()); err != nil || n < 2 || n > 12 {
 			continue
 		}
 		if api.Validate(bytes.NewReader(b), newConf()) != nil {
@@ -143,7 +143,7 @@ func setupMaterial(t *vk.T) *material {
 	}
 	grng := t.RNG("gen")
 	for i := 0; len(m.docs) < want+t.Pick(4, 10) && i < 60; i++ {
-		spec := pdfgen.RandomSpec(grng, 8)
+		spec := pdfgen.RandomSpec(grng, 5)
 		spec.Signatures = 0
 		if spec.Pages < 2 {
 			spec.Pages = 2
@@ -221,7 +221,7 @@ func stamp(desc string) opFunc {
 			return nil, err
 		}
 		var w bytes.Buffer
-		err = api.AddWatermarks(bytes.NewReader(d.Data), &w, nil, wm, newConf())
+		err = api.AddWatermarks(bytes.NewReader(d.Data), &w, []string{"1-2"}, wm, newConf())
 		return w.Bytes(), err
 	}
 }
